@@ -14,7 +14,7 @@ RULE = ('histories of 1..30 inputs over 3 names x 2 private addresses each: ADDR
         'EXPIRES="utc"; NEVER; <error> ... error=yes; CACHED flags) with expiry offsets from -10 s to +400 days relative to the fake clock, '
         'interleaved with clock advances from 0 s to 40 days; after every input the clock ticks once and every name and address is looked up; '
         'a third of the histories reach the map through a real TorState (0..3 leading lines as the GETINFO address-mappings/all reply of the bootstrap, '
-        'in Tor\'s single-line form when there is one, the rest as 650 ADDRMAP events); '
+        'in Tor\'s single-line form when there is one, the rest as 650 ADDRMAP events); in another third a second listener raises whenever a new name is announced; '
         'a second stream lets names share addresses (outside H, compared impl-vs-model only). Thorough adds all histories of length <= 4 over a '
         'reduced alphabet. non-trivial = at least two lines for one name or an expiry; distinct = distinct histories')
 TRUSTED = ["shlex.split, datetime.strptime, utcnow (pinned to the fake clock, whole seconds) — the line enters the model tokenised",
@@ -87,9 +87,24 @@ class Impl:
 
             def addrmap_expired(self, name):
                 log.append('expired %s' % name)
+        self.raiser = False
+        impl = self
+
+        @implementer(IAddrListener)
+        class Raiser(object):
+            # a second listener, of the application's, that fails whenever it hears of a new name (when told to)
+            def addrmap_added(self, addr):
+                if impl.raiser:
+                    e = RuntimeError('listener failed')
+                    e._harness_raised = True
+                    raise e
+
+            def addrmap_expired(self, name):
+                pass
         self.map = am.AddrMap()
         self.map.scheduler = self.clock
         self.map.add_listener(L())
+        self.map.add_listener(Raiser())
 
     def feed(self, text):
         self.map.update(text)
@@ -98,7 +113,11 @@ class Impl:
         start = len(self.log)
         try:
             if op[0] in ('line', 'raw'):
-                self.feed(render_line(op)[0])
+                try:
+                    self.feed(render_line(op)[0])
+                except RuntimeError as e:
+                    if not getattr(e, '_harness_raised', False):
+                        raise
             else:
                 self.clock.advance(op[1])
             if op[0] != 'raw':
@@ -178,6 +197,7 @@ def run_impl(c):
             pre = []
     else:
         im, pre, k = Impl(), [], 0
+    im.raiser = bool(c.get('raiser'))
     for op in ops:
         outs = pre + im.do(op)
         pre = []
@@ -248,6 +268,9 @@ def gen_cases(rng, tier):
         if k % 3 == 2:
             # through a real TorState: 0..all of the leading lines in the bootstrap's GETINFO reply, the rest as events
             c['boot'] = rng.randint(0, min(3, boot_prefix(c)))
+        elif k % 3 == 1:
+            # one of the application's listeners fails whenever a new name is announced: the map is none of its business
+            c['raiser'] = True
         yield c
     if tier == 'thorough':
         alpha = [['line', 1, 1, 'utc', 5, 5], ['line', 1, 2, 'utc', 2, 2], ['line', 1, 1, 'never3', None, None], ['line', 1, 'error', 'error', 9, 9],
